@@ -437,7 +437,11 @@ class ExtGen:
       return rng.choice([f"functools.partial({pv}, {kw}={sub()})", f"[{pv}, functools.partial({pv}, {kw}={sub()})]"])
     if r < 0.88:
       self.note("arg_factory.partial")
-      return f"arg_factory.partial(l2.fa, b=l2.Ka)"
+      return rng.choice([f"arg_factory.partial(l2.fa, b=l2.Ka)",
+                         # factories that bind positional arguments only (*args / positional-only callee)
+                         f"arg_factory.partial(l2.fa, b=functools.partial(l2.fc, {self.atom()}, {self.atom()}))",
+                         f"arg_factory.partial(l2.Ka, p=functools.partial(l2.fe, {self.atom()}), q={self.atom()})",
+                         f"arg_factory.partial(l2.fg, {self.atom()}, w=functools.partial(l2.fh, {self.atom()}, 2))"])
     if r < 0.93:
       self.note("container")
       return rng.choice([f"[{sub()}, {sub()}]", f"({sub()}, {sub()})", "{" + f"'a': {sub()}, 3: {sub()}" + "}"])
@@ -547,6 +551,11 @@ def random_extended(rng, res, n):
           if built_canon(built) != built_canon(direct):
             problems.append("build(as_buildable(*args)) differs from fn(*args) in values, types or sharing")
             replay = dict(replay, built=repr(built_canon(built))[:700], direct=repr(built_canon(direct))[:700])
+          elif called_results(built) != called_results(direct):
+            problems.append("a partial in build(as_buildable(*args)) returns something else than its counterpart "
+                            "in fn(*args) when called")
+            replay = dict(replay, built_calls=repr(called_results(built))[:700],
+                          direct_calls=repr(called_results(direct))[:700])
         except Exception as e:  # pylint: disable=broad-except
           problems.append(f"build(as_buildable(*args)) raised {type(e).__name__}: {e}")
       elif (cfg_err is None) != (py_err is None):
@@ -578,6 +587,35 @@ def shared_argument_case(res):
     res.failures.append(Failure(KNOWN_SHARED_ARG, "C11 shared-argument: fn(l, obj) shares l with obj.a, the built "
                                 "graph does not (fdl.build copies the list, passes obj through)",
                                 {"source": "def raw(p0, p1): return l2.fa(p0, b=p1)", "args": "l=[]; (l, l2.fa(l))"}))
+
+
+def called_results(x):
+  """Calls (without arguments) every partial-like callable found in a built graph, in a fixed traversal
+  order, and returns the canonical forms of what they return (a partial is what it does when called)."""
+  out, seen = [], set()
+  def walk(v, depth=0):
+    if id(v) in seen or depth > 12:
+      return
+    seen.add(id(v))
+    if hasattr(v, "view") and hasattr(v, "fn"):
+      for k in sorted(v.view):
+        walk(v.view[k], depth + 1)
+    elif isinstance(v, dict):
+      for k in sorted(v, key=repr):
+        walk(v[k], depth + 1)
+    elif isinstance(v, (list, tuple)):
+      for u in v:
+        walk(u, depth + 1)
+    elif isinstance(v, functools.partial) or type(v).__name__ == "_InvokeArgFactoryWrapper":
+      try:
+        r = v()
+        out.append(("ok", built_canon(r)))
+      except TypeError as e:
+        out.append(("TypeError",))
+      except Exception as e:  # pylint: disable=broad-except
+        out.append((type(e).__name__,))
+  walk(x)
+  return out
 
 
 def extended_cases(rng, res):
